@@ -39,6 +39,28 @@ fn pure_guess_case(cases: &[PureCase], c: &(usize, f64), rec: &mut Rec) {
         rec.skip("no VLE without guess (C04's findings)");
         return;
     };
+    // initial states AT the requested temperature that are not the solution: two phases at a neighbouring pressure, and the
+    // solution of a coarse tolerance that is to be refined
+    let psat = base.vapor().pressure(Contributions::Total);
+    let one = arr1(&[1.0]) * MOL;
+    for pf in [0.8, 0.95, 1.05] {
+        let Ok(init) = PhaseEquilibrium::new_npt(&eos, t, psat * pf, &one, &one) else {
+            rec.skip("no two-phase initial state at this pressure (conditional)");
+            continue;
+        };
+        match PhaseEquilibrium::pure(&eos, t, Some(&init), Default::default()) {
+            Ok(g) => rec.check("pure_guess", &format!("init_same_T_p_factor={pf}"), vle_distance(&g, &base) / BAND, true, || format!("with two phases at {pf} p_sat and the requested temperature as initial state the result differs by {:e}", vle_distance(&g, &base))),
+            Err(_) => rec.skip("pure with initial state fails (conditional)"),
+        }
+    }
+    for tol in [1e-3, 1e-6] {
+        let opt = feos_core::SolverOptions { tol: Some(tol), ..Default::default() };
+        let Ok(coarse) = PhaseEquilibrium::pure(&eos, t, None, opt) else { continue };
+        match PhaseEquilibrium::pure(&eos, t, Some(&coarse), Default::default()) {
+            Ok(g) => rec.check("pure_guess", &format!("init_coarse_tol={tol:e}"), vle_distance(&g, &base) / BAND, true, || format!("refining the tol = {tol:e} solution with default options differs from the direct solve by {:e} (coarse solution itself: {:e})", vle_distance(&g, &base), vle_distance(&coarse, &base))),
+            Err(_) => rec.skip("pure with initial state fails (conditional)"),
+        }
+    }
     for f in [0.7, 0.9, 1.1, 1.3] {
         if c.1 * f >= 0.995 || c.1 * f < pc.tr_min {
             continue;
